@@ -177,6 +177,11 @@ impl Check for C02 {
                             None => wide = true,
                         }
                     }
+                    // the truth table ranges over U^k only: restrict the instance sets to tuples
+                    // whose components all lie in U
+                    let uset: BTreeSet<T> = uni.iter().cloned().collect();
+                    let in_u = |t: &T| -> bool { t.unroll().0.iter().all(|c| uset.contains(*c)) };
+                    union.retain(|t| in_u(t));
                     if !wide {
                         out.count("truth_table_selftests", 1);
                         if union != sols {
@@ -192,6 +197,7 @@ impl Check for C02 {
                                 None => rwide = true,
                             }
                         }
+                        runion.retain(|t| in_u(t));
                         if !rwide && runion != sols {
                             let extra: Vec<String> = runion.difference(&sols).take(3).map(|t| format!("{}", t)).collect();
                             let missing: Vec<String> = sols.difference(&runion).take(3).map(|t| format!("{}", t)).collect();
